@@ -98,6 +98,7 @@ PROPERTIES = {
         units=['auth', 'kani_poll', 'enum_glue'],
         canaries=['auth', 'poll'],
         counterexample=cex.cex_c20,
+        extra=[validate.auth_scenarios],
         scope='the wrapped service is invoked (exactly once, with the unchanged request) iff the authorizer accepted; a refused request gets exactly the '
               'authorizer\'s response and causes no invocation (ghost call log on the generic Service); the allow-list authorizer implements the '
               'decision of the statement verbatim (listed -> accept, unlisted -> NotFound, no sender -> InternalServerError) and leaves the request untouched; '
